@@ -139,7 +139,8 @@ def space_specs(mesh, vector):
         return out
     out = [{"kind": "DP0"}, {"kind": "P1", "inc": True}, {"kind": "DP1"}]
     if len(doms) > 1:
-        out += [{"kind": "P1", "sel": ("segments", (doms[-1],)), "inc": True}, {"kind": "DP0", "swapped": (doms[0],)}]
+        out += [{"kind": "P1", "sel": ("segments", (doms[-1],)), "inc": True}, {"kind": "DP0", "swapped": (doms[0],)},
+                {"kind": "P1", "inc": True, "swapped": (doms[-1],)}]
     return out
 
 
